@@ -23,7 +23,7 @@ import (
 var prop = flag.String("prop", "C08", "C08 or C09: which oracle rules are reported")
 
 type params struct {
-	site   string // launch | msg | childKilled | sched | onKill (failure while stopping)
+	site   string // launch | msg | childKilled | sched | onKill (failure while stopping) | msgThenChildKilled (a second failure, in a system-message handler, while the decision about the first is still pending)
 	cause  string // panic | failed
 	dec    vivid.SupervisionDecision
 	all    bool                      // one-for-all at s
@@ -32,6 +32,8 @@ type params struct {
 	pos    int                       // position of boom in the burst (1..3)
 	hook   string                    // none | restarted-panic | prelaunch-err | prerestart-err
 	second bool                      // a fails a second time later
+	decG   vivid.SupervisionDecision // site gFailsWhileParentRestarts: a's decision about its child g
+	become bool                      // a switches to another behaviour (Become) before it fails: restart resets it, resume keeps it
 	fine   bool                      // the mailbox package's atomic / lock operations are switch points too (lost wake-ups of supervision commands)
 }
 
@@ -41,6 +43,12 @@ func (p params) name() string {
 		st = "all"
 	}
 	n := fmt.Sprintf("site=%s/%s/dec=%s/for-%s/dec2=%s/dec3=%s/pos=%d/hook=%s/second=%v", p.site, p.cause, p.dec, st, p.dec2, p.dec3, p.pos, p.hook, p.second)
+	if p.become {
+		n += "/become"
+	}
+	if p.site == "gFailsWhileParentRestarts" {
+		n += "/decG=" + p.decG.String()
+	}
 	if p.fine {
 		n += "/fine-mailbox"
 	}
@@ -163,6 +171,23 @@ func scenario(p params, bounds []int) *vexp.Scenario {
 			}
 			g := &vsys.Script{Name: "g"}
 			a := &vsys.Script{Name: "a", Children: []*vsys.Script{g}}
+			aKillSeen, gFailed := false, false
+			if p.site == "gFailsWhileParentRestarts" {
+				// g has mail queued (hold, boomG, x2) when its parent a - failing and being restarted gracefully - forwards the
+				// poison kill; g fails on boomG while a waits for it. a, although in the middle of its own restart, is still g's supervisor.
+				g.OnMsg = func(act *vsys.Act, ctx vivid.ActorContext, m vsys.Msg) {
+					switch m.ID {
+					case "hold":
+						vrt.Block(vrt.KYield, 0, "g holds a message until its parent's OnKill has run", func() bool { return aKillSeen })
+					case "boomG":
+						if !gFailed {
+							gFailed = true
+							fail(ctx, p.cause)
+						}
+					}
+				}
+				a.Strategy = w.Decider("/u/t/s/a", false, p.decG)
+			}
 			launches := 0
 			a.Launch = func(act *vsys.Act, ctx vivid.ActorContext) {
 				launches++
@@ -177,18 +202,38 @@ func scenario(p params, bounds []int) *vexp.Scenario {
 				}
 			}
 			a.OnMsg = func(act *vsys.Act, ctx vivid.ActorContext, m vsys.Msg) {
+				if m.ID == "become" {
+					ctx.Become(act.Alt("alt"))
+				}
 				if (m.ID == "boom" || m.ID == "boomS" || m.ID == "boom2") && failed < maxFail {
 					failed++
 					fail(ctx, p.cause)
 				}
 			}
+			gNoticeSeen := false // a has handled OnKilled(g) (whether or not it failed on it)
+			if p.site == "msgThenChildKilled" {
+				// the decision maker of /u/t/s answers the first failure only after the second one has happened
+				w.BeforeDecision = func(supervisor, child string) {
+					if supervisor == "/u/t/s" && child == "/u/t/s/a" && len(w.Decisions) == 0 {
+						vrt.Block(vrt.KYield, 0, "decision maker waits for the second failure", func() bool { return failed >= 2 || gNoticeSeen })
+					}
+				}
+			}
 			a.OnKilled = func(act *vsys.Act, ctx vivid.ActorContext, m *vivid.OnKilled) {
+				if p.site == "msgThenChildKilled" && m.Ref.GetPath() == "/u/t/s/a/g" {
+					gNoticeSeen = true
+					if failed == 1 {
+						failed++
+						fail(ctx, p.cause)
+					}
+				}
 				if (p.site == "childKilled" || p.site == "childKilledWhileStopping") && m.Ref.GetPath() == "/u/t/s/a/g" && failed < 1 {
 					failed++
 					fail(ctx, p.cause)
 				}
 			}
 			a.OnKill = func(act *vsys.Act, ctx vivid.ActorContext, m *vivid.OnKill) {
+				aKillSeen = true
 				if p.site == "onKill" && failed < 1 {
 					failed++
 					fail(ctx, p.cause)
@@ -224,12 +269,27 @@ func scenario(p params, bounds []int) *vexp.Scenario {
 			var sentA, sentB []string
 			tellA := func(id string) { sentA = append(sentA, id); w.Sys.Tell(ra, vsys.Msg{ID: id}); vrt.Yield() }
 			tellB := func(id string) { sentB = append(sentB, id); w.Sys.Tell(rb, vsys.Msg{ID: id}); vrt.Yield() }
+			if p.become {
+				w.Sys.Tell(ra, vsys.Msg{ID: "become"})
+				vrt.QuiesceNoTimers()
+			}
 			burst := []string{"m1", "m2", "m3"}
 			for i, m := range burst {
 				if i+1 == p.pos {
 					switch p.site {
 					case "msg":
 						tellA("boom")
+					case "gFailsWhileParentRestarts":
+						rg := w.Ref("/u/t/s/a/g")
+						for _, id := range []string{"hold", "boomG", "x2"} {
+							w.Sys.Tell(rg, vsys.Msg{ID: id})
+						}
+						vrt.QuiesceNoTimers() // g is now inside "hold" with boomG and x2 queued behind it
+						tellA("boom")
+					case "msgThenChildKilled":
+						tellA("boom")
+						w.Sys.Kill(w.Ref("/u/t/s/a/g"), false, "driver")
+						vrt.Yield()
 					case "childKilled":
 						w.Sys.Kill(w.Ref("/u/t/s/a/g"), false, "driver")
 						vrt.Yield()
@@ -252,11 +312,103 @@ func scenario(p params, bounds []int) *vexp.Scenario {
 				tellA("m4")
 				vrt.Quiesce()
 			}
+			if p.site == "gFailsWhileParentRestarts" {
+				if !gFailed {
+					x.Fail("harness", "g never failed")
+				}
+				n := 0
+				for _, d := range w.Decisions {
+					if strings.HasPrefix(d, "/u/t/s/a<-/u/t/s/a/g:") {
+						n++
+					}
+				}
+				if n != 1 {
+					rule("C08", "decision-consulted-once", "/u/t/s/a/g failed while its parent /u/t/s/a was being restarted: the parent's strategy was consulted %d times: %v", n, w.Decisions)
+				}
+				sysd := actor.VerifSys(w.Sys)
+				for _, c := range sysd.Contexts {
+					d := actor.VerifCtx(c)
+					if d.Paused && !d.Zombie {
+						rule("C09", "nobody-stays-paused", "%s is alive but its mailbox is still paused at quiescence (state=%d)", d.Path, d.State)
+					}
+					if d.State == 1 && !d.Zombie {
+						rule("C09", "nobody-half-stopped", "%s is stuck in the stopping state at quiescence (children=%v)", d.Path, d.Children)
+					}
+					if d.UserQ != 0 || d.SysQ != 0 {
+						rule("C09", "mail-consumed", "%s still has queued mail at quiescence (user=%d system=%d paused=%v)", d.Path, d.UserQ, d.SysQ, d.Paused)
+					}
+				}
+				if got := len(w.PubsOf("ActorRestartedEvent")); got < 1 {
+					rule("C09", "restart-completes", "/u/t/s/a was to be restarted gracefully but no ActorRestartedEvent was published (its child failed while it was waiting for it)")
+				}
+				var probed []string
+				for _, c := range sysd.Contexts {
+					d := actor.VerifCtx(c)
+					if d.Path == "/" || d.State != 0 {
+						continue
+					}
+					probed = append(probed, d.Path)
+					w.Sys.Tell(w.Ref(d.Path), vsys.Msg{ID: "probe:" + d.Path})
+				}
+				vrt.Quiesce()
+				for _, path := range probed {
+					ok := false
+					for _, en := range w.EntriesOf(path) {
+						if en.Type == "Msg" && en.Detail == "probe:"+path {
+							ok = true
+						}
+					}
+					if !ok {
+						rule("C09", "survivor-processes-probe", "%s survived but did not process a message sent after quiescence", path)
+					}
+				}
+				err := w.Sys.Stop()
+				vrt.Quiesce()
+				if err != nil {
+					rule("C09", "stop-after-failure", "System.Stop after the scenario returned %v", err)
+				}
+				vsys.CheckLifecycle(w)
+				x.Outcome(w.Summary() + strings.Join(w.Decisions, ";"))
+				return
+			}
+			if p.site == "msgThenChildKilled" {
+				// two failures of /u/t/s/a, each handed to its parent's strategy exactly once
+				n := 0
+				for _, d := range w.Decisions {
+					if strings.HasPrefix(d, "/u/t/s<-/u/t/s/a:") {
+						n++
+					}
+				}
+				if n != failed {
+					rule("C08", "decision-consulted-once", "/u/t/s/a failed %d times (on a message, then on its child's OnKilled while the first decision was pending) but the strategy of /u/t/s was consulted %d times: %v", failed, n, w.Decisions)
+				}
+				err := w.Sys.Stop()
+				vrt.Quiesce()
+				if err != nil {
+					rule("C09", "stop-after-failure", "System.Stop after the scenario returned %v", err)
+				}
+				vsys.CheckLifecycle(w)
+				x.Outcome(w.Summary() + strings.Join(w.Decisions, ";"))
+				return
+			}
 			eff, wantDec := expect(p)
 			if p.second {
 				wantDec = append(wantDec, wantDec...)
 			}
 
+			if p.become && p.dec.IsResume() {
+				// Resume: the actor continues with its state intact, i.e. still in the behaviour it had switched to
+				afterBoom := false
+				for _, en := range w.EntriesOf("/u/t/s/a") {
+					if en.Type == "Msg" && en.Detail == "boom" {
+						afterBoom = true
+						continue
+					}
+					if afterBoom && en.Type == "Msg" && en.Beh != "alt" {
+						rule("C08", "resume-keeps-state", "/u/t/s/a was resumed but handled %s with behaviour %q instead of the behaviour it had switched to before failing", en.Detail, en.Beh)
+					}
+				}
+			}
 			// ---------------- C08: exactly the decided directive to exactly its targets ----------------
 			if failed == 0 {
 				x.Fail("harness", "the scripted failure never happened")
@@ -544,7 +696,7 @@ var decisions = []vivid.SupervisionDecision{
 func build(tier string) []*vexp.Scenario {
 	bounds := []int{0, 1}
 	if tier == "thorough" {
-		bounds = []int{0, 1, 2}
+		bounds = []int{0, 1, 2, 3}
 	}
 	var out []*vexp.Scenario
 	add := func(p params) {
@@ -609,6 +761,30 @@ func build(tier string) []*vexp.Scenario {
 		p := base
 		p.dec, p.second = d, true
 		add(p)
+	}
+	// a child with queued mail fails while its parent is in the middle of its own (graceful) restart
+	for _, cause := range []string{"panic", "failed"} {
+		for _, dg := range decisions {
+			p := base
+			p.site, p.cause, p.dec, p.decG = "gFailsWhileParentRestarts", cause, vivid.SupervisionDecisionGracefulRestart, dg
+			out = append(out, scenario(p, bounds))
+		}
+	}
+	// a second failure (in the OnKilled handler, which runs although the mailbox is paused) while the first decision is pending
+	for _, cause := range []string{"panic", "failed"} {
+		for _, d := range decisions {
+			p := base
+			p.site, p.cause, p.dec = "msgThenChildKilled", cause, d
+			out = append(out, scenario(p, bounds))
+		}
+	}
+	// state: the failing actor has switched behaviour before it fails (restart resets it, resume keeps it)
+	for _, d := range decisions {
+		for _, all := range []bool{false, true} {
+			p := base
+			p.dec, p.all, p.become = d, all, true
+			out = append(out, scenario(p, bounds))
+		}
 	}
 	// the supervision command races the failed actor's mailbox going idle: mailbox operations are switch points
 	if *prop == "C09" {
